@@ -356,7 +356,7 @@ theorem LinkStruct.addNode {L : LinkMap} (h : LinkStruct L) {E : Nat} {P : List 
     · rw [childrenOf_addNodeLinks]
       split
       · exact List.nodup_nil
-      · rw [if_neg hx]; exact h.ndC x
+      · exact h.ndC x
 
 /-! ### existing nodes hung below a node (`record_entry_descendants` with pooled children) -/
 
